@@ -126,7 +126,9 @@ func (r *foRun) startGet(p string) {
 	ctx := context.WithValue(context.Background(), procKey{}, p)
 	ctx = context.WithValue(ctx, ctxProbe{}, p)
 	ctx, cancel := context.WithDeadline(ctx, time.Now().Add(100000*time.Hour))
+	r.s.mu.Lock()
 	r.cancels[p] = cancel
+	r.s.mu.Unlock()
 
 	if r.cfg.Skip[p] {
 		ctx = cache.WithSkipRead(ctx)
@@ -485,6 +487,15 @@ func runFoSchedule(t *testing.T, cfg FoCfg, bi int, b []foStepJ, seed int64) (ou
 	r := &foRun{cfg: cfg, s: s, stat: stat, km: km, u: cfg.unit(), results: map[string]*foResJ{},
 		cells: map[string]int{}, ctxs: map[string]context.Context{}, cancels: map[string]context.CancelFunc{}}
 	r.fo = newFo(cfg, s, stat, func() time.Time { return r.t0 })
+	s.onFail = func(p string) {
+		s.mu.Lock()
+		c := r.cancels[p]
+		s.mu.Unlock()
+
+		if c != nil {
+			c()
+		}
+	}
 
 	defer func() {
 		if p := recover(); p != nil {
@@ -630,6 +641,15 @@ func runFoWalk(t *testing.T, cfg FoCfg, wi int, seed int64, maxFaults, maxFails,
 	r := &foRun{cfg: cfg, s: s, stat: stat, km: km, u: cfg.unit(), results: map[string]*foResJ{},
 		cells: map[string]int{}, ctxs: map[string]context.Context{}, cancels: map[string]context.CancelFunc{}}
 	r.fo = newFo(cfg, s, stat, func() time.Time { return r.t0 })
+	s.onFail = func(p string) {
+		s.mu.Lock()
+		c := r.cancels[p]
+		s.mu.Unlock()
+
+		if c != nil {
+			c()
+		}
+	}
 
 	defer func() {
 		if p := recover(); p != nil {
